@@ -14,12 +14,16 @@ structure CS where
   items : List CItem := []
   opNum : Nat := 0
   hasComment : Bool := false
+  opState : Bool := false
 
-/-- Inner loop of `process`: the children of one operand node. State: (stylist, can_attach, seen_op). -/
-def CS.childStepM (e : Env) (ctx : Ctx) (opConv : ANode → M (Option Doc)) (rhsConv : Ctx → ANode → M (Option Doc))
+/-- Inner loop of `process`: the children of one operand node. State: (stylist, can_attach,
+seen_op); `cs.opState` is the state the operator converter closes over (`seen_not`). -/
+def CS.childStepM (e : Env) (ctx : Ctx) (opConv : Bool → ANode → M (Bool × Option Doc)) (rhsConv : Ctx → ANode → M (Option Doc))
     (acc : CS × Bool × Bool) (child : ANode) : M (CS × Bool × Bool) := do
   let (cs, canAttach, seenOp) := acc
-  match ← opConv child with
+  let (ost, op?) ← opConv cs.opState child
+  let cs := { cs with opState := ost }
+  match op? with
   | some op => pure ({ cs with items := cs.items ++ [.op op] }, canAttach, true)
   | none =>
     if isCommentKind child.kind then
@@ -37,7 +41,7 @@ def CS.childStepM (e : Env) (ctx : Ctx) (opConv : ANode → M (Option Doc)) (rhs
     else pure (cs, canAttach, seenOp)
 
 /-- Outer loop of `process`: one node of the resolved chain (innermost first). -/
-def CS.nodeStepM (e : Env) (ctx : Ctx) (operandPred : ANode → Bool) (opConv : ANode → M (Option Doc))
+def CS.nodeStepM (e : Env) (ctx : Ctx) (operandPred : ANode → Bool) (opConv : Bool → ANode → M (Bool × Option Doc))
     (rhsConv : Ctx → ANode → M (Option Doc)) (fallback : Ctx → ANode → M (Option Doc))
     (acc : CS × Bool) (node : ANode) : M (CS × Bool) := do
   let (cs, canAttach) := acc
@@ -54,7 +58,7 @@ def CS.nodeStepM (e : Env) (ctx : Ctx) (operandPred : ANode → Bool) (opConv : 
     | none => pure (cs, canAttach)
 
 def CS.processM (e : Env) (cs : CS) (ctx : Ctx) (nodes : List ANode) (operandPred : ANode → Bool)
-    (opConv : ANode → M (Option Doc)) (rhsConv : Ctx → ANode → M (Option Doc))
+    (opConv : Bool → ANode → M (Bool × Option Doc)) (rhsConv : Ctx → ANode → M (Option Doc))
     (fallback : Ctx → ANode → M (Option Doc)) : M CS := do
   let r ← nodes.foldlM (CS.nodeStepM e ctx operandPred opConv rhsConv fallback) (cs, false)
   pure r.1
